@@ -54,8 +54,20 @@ def canon_xf(v):
 R_FIELDS = ["ret", "ev", "xf", "lock", "sft", "draws"]
 
 
-def diff_R(impl, model):
+def tok_class(code, ctx):
+    """lp / pay / fee / other, given the contract's current tokens"""
+    if code == ctx.get("lp", 2):
+        return "lp"
+    if code == ctx.get("pay"):
+        return "pay"
+    if code == ctx.get("fee"):
+        return "fee"
+    return "other"
+
+
+def diff_R(impl, model, ctx=None):
     """fields in which two result lines differ"""
+    ctx = ctx or {}
     a, b = parse_R(impl), parse_R(model)
     if a["st"] != b["st"]:
         return ["st"]
@@ -65,14 +77,16 @@ def diff_R(impl, model):
     for f in R_FIELDS:
         x, y = a.get(f, "[]"), b.get(f, "[]")
         if f == "xf":
-            if canon_xf(x) != canon_xf(y):
-                out.append(f)
+            cx, cy = dict(canon_xf(x)), dict(canon_xf(y))
+            for k in set(cx) | set(cy):
+                if cx.get(k) != cy.get(k):
+                    out.append("xf." + tok_class(k[1], ctx))
         elif f == "sft":
             if sorted(parse_list(x)) != sorted(parse_list(y)):
                 out.append(f)
         elif x != y:
             out.append(f)
-    return out
+    return sorted(set(out))
 
 
 def parse_D(line):
@@ -99,14 +113,32 @@ def parse_D(line):
     return g, addrs
 
 
+def dump_ctx(g):
+    """token roles from a parsed dump's globals"""
+    ctx = {"lp": 2}
+    if "price" in g:
+        ctx["pay"] = int(g["price"].split(":")[0])
+    if "cost" in g:
+        ctx["fee"] = int(g["cost"].split(":")[0])
+    return ctx
+
+
 def diff_D(impl, model):
     if not (impl.startswith("D ") and model.startswith("D ")):
         return ["dump-format"] if impl != model else []
     gi, ai = parse_D(impl)
     gm, am = parse_D(model)
     out = []
+    ctx = dump_ctx(gi)
     for k in sorted(set(gi) | set(gm)):
         if gi.get(k) != gm.get(k):
+            if k == "bal":
+                bi = dict(x.split(":") for x in parse_list(gi.get(k, "[]")))
+                bm = dict(x.split(":") for x in parse_list(gm.get(k, "[]")))
+                for t in set(bi) | set(bm):
+                    if bi.get(t) != bm.get(t):
+                        out.append("bal." + tok_class(int(t), ctx))
+                continue
             out.append(k)
     for a in sorted(set(ai) | set(am)):
         di, dm = ai.get(a, {}), am.get(a, {})
